@@ -30,8 +30,13 @@ def run(ctx):
     ctx.rule("R04-7", "the here-string pipe's read end is still the descriptor pipe() returned when the child "
                       "installs it: between fork and dup2(here_string.0, 0) the child performs no operation on a "
                       "number the shell released at an earlier stage (pipes[idx-1].1)")
+    ctx.rule("R04-9", "no redirection is dropped silently: every path through one iteration of tokens_to_redirections' "
+                      "loop keeps the word (push), records a redirection (push), arms the `operand follows` state, or "
+                      "returns an error - a word containing `>` that fits none of the spellings must not just disappear "
+                      "(`echo hi >a>b` would print to the terminal and create no file)")
     for crate in ctx.crates:
         input_order_rule(ctx, crate)
+        no_drop_rule(ctx, crate)
         opener_rule(ctx, crate)
         body = crate.fn("core::run_single_program")
         if not ctx.require(body is not None, "R04-2", "R04-2|anchor", "core::run_single_program not found"):
@@ -370,3 +375,90 @@ def input_order_rule(ctx, crate):
            key="R04-8|%s|input-search-direction" % b.path, where=b.loc((back or fwd or [(0, "")])[0][0]), crate=crate.kind,
            detail=None if ok else "%s: with `cat < a < b` the first operand is recorded last and wins (bash and the output side "
            "give the last one)" % ", ".join(x[1] for x in back))
+
+
+def _regex_literal(b, expr):
+    """the literal a Regex value was compiled from (looks through Ok-downcasts / derefs), or None"""
+    for sub in mir.subexprs(b.expand_vars(strip_sites(expr))):
+        if sub[0] == "call" and sub[1].endswith("Regex::new") and sub[2]:
+            return const_str(sub[2][0])
+    return None
+
+
+def no_drop_rule(ctx, crate):
+    b = crate.fn("parsers::parser_line::tokens_to_redirections")
+    if not ctx.require(b is not None, "R04-9", "R04-9|anchor", "parsers::parser_line::tokens_to_redirections not found"):
+        return
+    ctx.analysed(b)
+    pushes = {bb for bb, t, c in b.calls() if last_seg(c) == "push" and "Vec" in c}
+    # the recognition loop: the natural loop holding most of the pushes
+    best = None
+    for h, blocks in b.loops().items():
+        n = len(pushes & blocks)
+        if best is None or n > best[0]:
+            best = (n, h, blocks)
+    if not ctx.require(best is not None and best[0] >= 3, "R04-9", "R04-9|%s|loop" % b.path,
+                       "recognition loop not found", b.path):
+        return
+    _, h, loop = best
+    nb = [bb for bb, t, c in b.calls() if bb in loop and last_seg(c) == "next" and
+          not any(bb in bl and len(bl) < len(loop) for bl in b.loops().values())]
+    some = []
+    for x in nb:
+        for y in b.succs[x]:
+            some += [tgt for tgt, atom, val in b.switch_edges(y) if val == "Some"]
+    if not ctx.require(bool(some), "R04-9", "R04-9|%s|next" % b.path, "iterator step of the loop not found", b.path):
+        return
+    accounted = set(pushes & loop)
+    for bi, si, st in b.stmts():
+        if bi in loop and st["k"] == "assign" and not st["place"]["p"] and st["place"]["l"] in b.names and \
+                b.locals[st["place"]["l"]]["ty"] == "bool" and mir.const_bool(b.rvalue_expr(st["rv"])) is True:
+            accounted.add(bi)
+    # edges that cannot be taken: captures(text) == None although is_match / re_contains(text, same literal) held
+    dead = set()
+    n_caps = 0
+    for x in sorted(loop):
+        for tgt, atom, val in b.switch_edges(x):
+            a = strip_sites(atom)
+            if val != "None" or a[0] != "discr":
+                continue
+            inner = a[1]
+            if inner[0] != "call" or last_seg(inner[1]) != "captures" or len(inner[2]) < 2:
+                continue
+            lit = _regex_literal(b, inner[2][0])
+            text = render(b.expand_vars(strip_sites(inner[2][1])))
+            for fa, fv in dom_facts(b, x, within=loop):
+                f = strip_sites(fa)
+                if fv is True and f[0] == "call" and last_seg(f[1]) in ("re_contains", "is_match") and len(f[2]) >= 2:
+                    flit = const_str(f[2][1]) if last_seg(f[1]) == "re_contains" else _regex_literal(b, f[2][0])
+                    ftext = f[2][0] if last_seg(f[1]) == "re_contains" else f[2][1]
+                    if lit is not None and flit == lit and render(b.expand_vars(strip_sites(ftext))) == text:
+                        dead.add((x, tgt))
+                        n_caps += 1
+    back = {(x, y) for x, y in b.back_edges() if y == h}
+    seen, todo, witness = set(), [(some[0], (some[0],))], None
+    while todo and witness is None:
+        bb, path = todo.pop()
+        if bb in seen or bb in accounted:
+            continue
+        seen.add(bb)
+        for y in b.succs[bb]:
+            if y not in loop or (bb, y) in dead:
+                continue
+            if (bb, y) in back:
+                witness = path
+                break
+            todo.append((y, path + (y,)))
+    ok = witness is None
+    detail = None
+    if not ok:
+        conds = []
+        for i in range(len(witness) - 1):
+            for tgt, atom, val in b.switch_edges(witness[i]):
+                if tgt == witness[i + 1]:
+                    conds.append("%s = %s" % (render(strip_sites(atom))[-70:], val))
+        detail = ("an iteration can reach the next token having neither kept the word, nor recorded a redirection, nor "
+                  "reported an error; last tests on that path: " + "; ".join(conds[-3:]))
+    ctx.ob("R04-9", b.path, "every iteration accounts for its token (%d accounting blocks, %d impossible `captures == None` "
+                            "edge(s) excluded)" % (len(accounted), n_caps), ok,
+           key="R04-9|%s|token-dropped" % b.path, where=b.loc((witness or [h])[-1]), crate=crate.kind, detail=detail)
